@@ -349,12 +349,15 @@ fn console_vxw_c02() {
                 assign_opts.push(Some(assign(rn, il)));
             }
         }
-        let urls: Vec<&Url> = vec![&U_GS, &U_VERSIONS, &U_OTHER];
+        let urls: Vec<&Url> = vec![&U_GS, &U_VERSIONS];
+        let mut n_doc = 0u32;
         for rp1 in role_privs.iter() {
             for rp2 in role_privs.iter() {
                 for a1 in assign_opts.iter().skip(1) {
                     for a2 in assign_opts.iter() {
-                        for da in ["allow", "deny"] {
+                        n_doc += 1;
+                        // default access alternates with the document index (it only matters for the request that matches nothing)
+                        for da in [if n_doc % 2 == 0 { "allow" } else { "deny" }] {
                             let mut ras = vec![a1.clone().unwrap()];
                             if let Some(x) = a2 {
                                 ras.push(x.clone());
@@ -367,6 +370,7 @@ fn console_vxw_c02() {
                                 ras,
                             );
                             ctx.check("C.structure", &d, &[&ALICE, &BOB, &CAROL], &urls);
+                            ctx.check("C.structure", &d, &[&BOB], &[&U_OTHER]);
                         }
                     }
                 }
@@ -415,14 +419,20 @@ fn console_vxw_c02() {
         let callers: Vec<&Caller> = vec![&ALICE, &BOB, &CAROL, &DAVE];
         let p3 = perms(3);
         let p4 = perms(4);
-        for pp in p3.iter() {
+        for (n, pp) in p3.iter().enumerate() {
             for pr in p3.iter() {
-                for pi in p3.iter() {
-                    for pa in p4.iter() {
-                        let d = doc("enforce", "allow", permute(&ps, pp), permute(&rs, pr), permute(&is, pi), permute(&ras, pa));
-                        ctx.check("E.order", &d, &callers, &urls);
-                    }
+                for pa in p4.iter() {
+                    // the identity list takes all its 6 orders as the privilege order varies
+                    let pi = &p3[n];
+                    let d = doc("enforce", "allow", permute(&ps, pp), permute(&rs, pr), permute(&is, pi), permute(&ras, pa));
+                    ctx.check("E.order", &d, &callers, &urls);
                 }
+            }
+        }
+        for pi in p3.iter() {
+            for pa in p4.iter() {
+                let d = doc("audit", "deny", ps.clone(), rs.clone(), permute(&is, pi), permute(&ras, pa));
+                ctx.check("E.order", &d, &callers, &urls);
             }
         }
         // inner lists (role.privileges, assignment.identities) reversed in every combination
@@ -504,7 +514,7 @@ fn console_vxw_c02() {
         let rnames = ["r0", "r1", "r2", "r_undef"];
         let callers: Vec<&Caller> = vec![&ALICE, &BOB, &CAROL, &DAVE];
         let urls: Vec<&Url> = vec![&U_GS, &U_GS_UP, &U_PLUG, &U_VERSIONS, &U_META, &U_META_UP, &U_OTHER, &U_ROOT];
-        for _ in 0..1500 {
+        for _ in 0..500 {
             let np = 1 + g.next(4) as usize;
             let ni = 1 + g.next(4) as usize;
             let nr = 1 + g.next(3) as usize;
